@@ -91,6 +91,22 @@ func mkKeysets(odd string) keysets {
 	return ks
 }
 
+// metaStrings: values that some layer might be tempted to interpret (shell / Kubernetes /
+// make / printf / escape syntax). For the spec generator every value is an opaque string:
+// it must appear exactly as requested. The referenced names (E1, E2, PATH, HOME) are
+// variable names of the env alphabet, so the spec or the same adjustment often defines them.
+var metaStrings = []string{
+	"echo $$ > /run/app.pid", "$$", "$$(E1)", "CC=$(E1)", "$(PATH)", "$(E2)/bin:$(HOME)", "$(undefined)", "$(", "$",
+	"${E1}", "$E1", "%s", "%(E1)s", "%%", "a\\nb", "\\$(E1)", "`id`", "$(E1", "~/x", "*",
+}
+
+func init() {
+	annVals = append(annVals, "$$", "$(k1)", "${k1}", "%s", "a\\tb")
+	envVals = append(envVals, "$$", "$(E1)", "$(PATH):/opt/bin", "${E2}", "$E1", "%s", "a\\nb")
+}
+
+func withMeta(base []string) []string { return append(append([]string(nil), base...), metaStrings...) }
+
 func pick[T any](t *rapid.T, label string, xs ...T) T { return rapid.SampledFrom(xs).Draw(t, label) }
 
 func chance(t *rapid.T, label string, num, den int) bool {
@@ -228,10 +244,10 @@ func genDeviceBody(t *rapid.T, path string) AdjDevice {
 func genHook(t *rapid.T) AdjHook {
 	h := AdjHook{Path: pick(t, "hpath", hookPaths...)}
 	if chance(t, "hargs", 1, 2) {
-		h.Args = rapid.SliceOfN(rapid.SampledFrom([]string{"h", "-v", "--id=1", ""}), 1, 3).Draw(t, "hargv")
+		h.Args = rapid.SliceOfN(rapid.SampledFrom(withMeta([]string{"h", "-v", "--id=1", ""})), 1, 3).Draw(t, "hargv")
 	}
 	if chance(t, "henv", 1, 3) {
-		h.Env = rapid.SliceOfN(rapid.SampledFrom([]string{"A=1", "B=", "C=x=y"}), 1, 2).Draw(t, "henvv")
+		h.Env = rapid.SliceOfN(rapid.SampledFrom([]string{"A=1", "B=", "C=x=y", "D=$$", "E=$(E1)", "F=${E1}%s"}), 1, 2).Draw(t, "henvv")
 	}
 	if chance(t, "htimeout", 1, 2) {
 		h.Timeout = ptrOf(pick(t, "timeout", int64(0), 1, 5, 3600))
@@ -315,7 +331,7 @@ func genSpec(t *rapid.T, pool []string, ks keysets) rspec.Spec {
 		p.Capabilities = &rspec.LinuxCapabilities{Bounding: []string{"CAP_CHOWN", "CAP_KILL"}, Effective: []string{"CAP_KILL"}}
 	}
 	if chance(t, "has_args", 3, 4) {
-		p.Args = rapid.SliceOfN(rapid.SampledFrom([]string{"sh", "-c", "sleep 1", "", "--flag"}), 1, 3).Draw(t, "args")
+		p.Args = rapid.SliceOfN(rapid.SampledFrom(withMeta([]string{"sh", "-c", "sleep 1", "", "--flag"})), 1, 3).Draw(t, "args")
 	}
 	if chance(t, "has_oom", 1, 2) {
 		p.OOMScoreAdj = ptrOf(rapid.IntRange(-1000, 1000).Draw(t, "oom"))
@@ -537,7 +553,7 @@ func genAdj(t *rapid.T, pool []string, den int, ks keysets) Adj {
 		}
 	}
 	if has("args") {
-		a.Args = rapid.SliceOfN(rapid.SampledFrom([]string{"/bin/app", "run", "-x", "", "a b"}), 1, 4).Draw(t, "args")
+		a.Args = rapid.SliceOfN(rapid.SampledFrom(withMeta([]string{"/bin/app", "run", "-x", "", "a b"})), 1, 4).Draw(t, "args")
 	}
 	if has("hooks") {
 		a.Hooks = &AdjHooks{
